@@ -1,4 +1,4 @@
 (* Compiled from ocaml/ctrl/ so that model.ml lands there.  ExtrOcamlBasic only. *)
 From Coq Require Import Extraction ExtrOcamlBasic.
-From SSV Require Import Ctrl.Model.
-Extraction "model.ml" step init.
+From SSV Require Import Ctrl.Model Ctrl.Refused.
+Extraction "model.ml" step xstep init.
